@@ -4,6 +4,7 @@ package main
 // property-specific obligation generators (mode A).
 
 import (
+	"sort"
 	"go/token"
 
 	"golang.org/x/tools/go/ssa"
@@ -71,14 +72,62 @@ type Trace struct {
 	recvs      []*RecvSite
 	panics     []*PanicSite
 	count      map[string]int
+	srcOrd     map[ssa.Instruction]int
+	base       map[string]int
 }
 
 func newTrace() *Trace { return &Trace{count: map[string]int{}} }
 
+// add records a call site.  The ordinal #k of a site of the function under contract is its rank in
+// SOURCE order among that function's calls to the same callee (stable under block reordering);
+// sites inside inlined callees are numbered after them in execution order.
 func (t *Trace) add(cs *CallSite) {
+	if cs.Depth == 0 && t.srcOrd != nil {
+		if k, ok := t.srcOrd[cs.Instr]; ok {
+			cs.Ord = k
+			t.calls = append(t.calls, cs)
+			return
+		}
+	}
 	t.count[cs.Callee]++
-	cs.Ord = t.count[cs.Callee]
+	cs.Ord = t.base[cs.Callee] + t.count[cs.Callee]
 	t.calls = append(t.calls, cs)
+}
+
+// indexSites numbers the call instructions of fn per callee in source order.
+func (t *Trace) indexSites(fn *ssa.Function, name func(*ssa.CallCommon) string) {
+	type site struct {
+		ins ssa.Instruction
+		pos token.Pos
+		seq int
+	}
+	by := map[string][]site{}
+	seq := 0
+	for _, b := range fn.Blocks {
+		for _, ins := range b.Instrs {
+			ci, ok := ins.(ssa.CallInstruction)
+			if !ok {
+				continue
+			}
+			seq++
+			n := name(ci.Common())
+			by[n] = append(by[n], site{ins, ins.Pos(), seq})
+		}
+	}
+	t.srcOrd = map[ssa.Instruction]int{}
+	t.base = map[string]int{}
+	for n, ss := range by {
+		sort.SliceStable(ss, func(i, j int) bool {
+			if ss[i].pos != ss[j].pos {
+				return ss[i].pos < ss[j].pos
+			}
+			return ss[i].seq < ss[j].seq
+		})
+		for k, s := range ss {
+			t.srcOrd[s.ins] = k + 1
+		}
+		t.base[n] = len(ss)
+	}
 }
 
 func (t *Trace) callsTo(names ...string) []*CallSite {
